@@ -6,7 +6,8 @@ open H4.Handles
 /-- engine `ids` (stateful): the file table / access record model.  Handles in the trace are `f<k>` / `a<k>` = the k-th file id /
     access id the harness obtained, `x<k>` = a value that was never issued; the maps translate them to the model's atoms. -/
 structure IdsSt where
-  w : World := World.init
+  /-- the file table (`sw.w`) and the special-information records that hold access elements of their own -/
+  sw : SpWorld := SpWorld.init
   fmap : List Nat := []
   amap : List Nat := []
 
@@ -16,30 +17,40 @@ private def tok (st : IdsSt) (t : String) : Nat :=
   | 'a' :: rest => st.amap.getD ((String.ofList rest).toNat?.getD 0) 4000000001
   | _ => 4000000002
 
-private def out (st : IdsSt) (r : World × Res) (kind : Char) : IdsSt × String :=
+private def out (st : IdsSt) (r : SpWorld × Res) (kind : Char) : IdsSt × String :=
   match r.2 with
-  | .fail => ({ st with w := r.1 }, "fail")
-  | .ok => ({ st with w := r.1 }, "ok")
-  | .confused => ({ st with w := r.1 }, "confused")
+  | .fail => ({ st with sw := r.1 }, "fail")
+  | .ok => ({ st with sw := r.1 }, "ok")
+  | .confused => ({ st with sw := r.1 }, "confused")
   | .id a =>
-    if kind == 'f' then ({ st with w := r.1, fmap := st.fmap ++ [a] }, s!"f{st.fmap.length}")
-    else ({ st with w := r.1, amap := st.amap ++ [a] }, s!"a{st.amap.length}")
+    if kind == 'f' then ({ st with sw := r.1, fmap := st.fmap ++ [a] }, s!"f{st.fmap.length}")
+    else ({ st with sw := r.1, amap := st.amap ++ [a] }, s!"a{st.amap.length}")
+
+private def spKind (t : String) : SpKind :=
+  match t with
+  | "L" => .linked
+  | "C" => .comp
+  | "K" => .chunked
+  | _ => .ordinary
 
 def stepIds (st : IdsSt) (args : List String) : IdsSt × String :=
   let n (t : String) : Nat := t.toNat?.getD 0
   match args with
-  | ["open", p, acc, ok] => out st (step Cfg.current st.w (.hopen (n p) (n acc) (ok != "0"))) 'f'
-  | ["close", h] => out st (step Cfg.current st.w (.hclose (tok st h))) 'f'
-  | ["startaccess", h, fnd, wr] => out st (step Cfg.current st.w (.startaccess (tok st h) (fnd != "0") (wr != "0"))) 'a'
-  | ["endaccess", h] => out st (step Cfg.current st.w (.endaccess (tok st h))) 'a'
-  | ["nextread", h, fnd] => out st (step Cfg.current st.w (.nextread (tok st h) (fnd != "0"))) 'a'
-  | ["usefid", h] => out st (step Cfg.current st.w (.usefid (tok st h))) 'f'
-  | ["useaid", h] => out st (step Cfg.current st.w (.useaid (tok st h))) 'a'
+  | ["open", p, acc, ok] => out st (spStep Cfg.current st.sw (.prim (.hopen (n p) (n acc) (ok != "0")))) 'f'
+  | ["close", h] => out st (spStep Cfg.current st.sw (.prim (.hclose (tok st h)))) 'f'
+  | ["startaccess", h, fnd, wr] => out st (spStep Cfg.current st.sw (.prim (.startaccess (tok st h) (fnd != "0") (wr != "0")))) 'a'
+  | ["endaccess", h] => out st (spStep Cfg.current st.sw (.prim (.endaccess (tok st h)))) 'a'
+  | ["nextread", h, fnd] => out st (spStep Cfg.current st.sw (.prim (.nextread (tok st h) (fnd != "0")))) 'a'
+  | ["usefid", h] => out st (spStep Cfg.current st.sw (.prim (.usefid (tok st h)))) 'f'
+  | ["useaid", h] => out st (spStep Cfg.current st.sw (.prim (.useaid (tok st h)))) 'a'
+  | ["startsp", h, ref, kind, wr] =>
+    -- Hstartaccess on element `ref` of the series of special elements (the element exists)
+    out st (spStep Cfg.current st.sw (.startsp (tok st h) (n ref) (spKind kind) true (wr != "0"))) 'a'
   | ["counts", h] =>
-    match lookF Cfg.current st.w (tok st h) with
+    match lookF Cfg.current st.sw.w (tok st h) with
     | .file _ r => (st, s!"{r.refcount},{r.attach}")
     | _ => (st, "fail")
-  | ["live"] => (st, s!"{(liveFids st.w).length},{(liveAids st.w).length},{st.w.frecs.length},{st.w.arecs.length}")
+  | ["live"] => (st, s!"{(liveFids st.sw.w).length},{(liveAids st.sw.w).length},{st.sw.w.frecs.length},{st.sw.w.arecs.length}")
   | ["sdpack", slot, idx] =>
     -- the ids SDstart / SDselect / SDgetdimid build for netCDF slot `slot`, object index `idx`
     let f := sdFileId (n slot)
